@@ -18,6 +18,10 @@ Case kinds
        class must be accepted by each of its ancestors (child-accepts / ancestor-rejects
        witness otherwise); only fields whose override was explicitly declared by the class or
        by a class between it and that ancestor are exempt.
+  pln  oracle only: override pairs with the plain builtins `str/int/float/bool` (pydantic's
+       coercing validators + the schema Config's anystr limits; outside the Lean grammar) on
+       either side: parent `f: b`, child `f: a`; if construction + `check_types` let the child
+       through, every value it accepts must serialise to something the parent accepts.
   anc  installed schemas: every generated instance (json_dict()) parsed by every ancestor.
 """
 import itertools
@@ -37,13 +41,15 @@ LEAN = dict(
         "isSubtype_sound", "Sub_refl", "child_valid_in_parent", "child_in_Sub_parent", "undeclared_widening_refused",
         "checked_overrides_are_subtypes", "installedStrings_sound_except", "qualhashsum_not_subtype",
         "classTable_unsound_with_qualhashsum", "optional_not_subtype", "literal_subtype_iff", "literal_superset_not_subtype",
-        "legacy_crash_breaks_union_subtype"]],
+        "legacy_crash_breaks_union_subtype", "checkTypes_visits_ancestors", "intermediate_widening_refused", "declaration_not_inherited",
+        "new_field_below_forbidding_parent_refused", "nested_literal_refused"]],
     drivers=["drv_cod"],
 )
 
 F12_SIG = "C13:phantom-subclass-non-included-pattern:QualHashsumStr<HashsumStr"
 CONST_FORBID_SIG = "C13:const-field-under-forbidding-parent"
 NEW_FIELD_FORBID_SIG = "C13:new-field-under-forbidding-parent"
+NESTED_BLANK_LIT_SIG = "C13:blank-literal-nested-below-plain-str"
 
 
 # ----------------------------------------------------------------------------- real code helpers
@@ -99,6 +105,8 @@ def impl(case):
     out, oracle, tags = [], [], []
     if kind == "anc":
         return _impl_anc(case)
+    if kind == "pln":
+        return _impl_pln(case)
     from metador_core.util.typing import is_subtype
 
     if kind == "sub":
@@ -225,6 +233,65 @@ def _impl_ovr(case):
     finally:
         F.close()
     return dict(out=out, oracle=oracle[:5], tags=sorted(set(tags)))
+
+
+def pln_family(a, b):
+    """Parent `f: b`, child re-annotating `f: a` (both plugins, nothing declared)."""
+    return [_cd("Ga", None, fields=[["f", b, None]], plugin=True), _cd("Ch", "Ga", fields=[["f", a, None]], plugin=True)]
+
+
+def _impl_pln(case):
+    """Oracle only (the plain builtins `str/int/float/bool` with pydantic's coercing validators are
+    outside the Lean grammar): for each pair (a, b) the family Ga.f: b <- Ch.f: a; if class
+    construction and `check_types` let it through, every value Ch accepts must serialise to
+    something Ga accepts."""
+    from metador_core.schema.core import check_types
+
+    oracle, tags = [], []
+    rng = random.Random(case.get("seed", 0))
+    n_ok = 0
+    for a, b in case["pairs"]:
+        fam = pln_family(a, b)
+        try:
+            F = G.Family(fam)
+        except (TypeError, ValueError):
+            tags.append("construction-refused")
+            continue
+        try:
+            Ch, Ga = F.classes["Ch"], F.classes["Ga"]
+            try:
+                check_types(Ch, recheck=True)
+            except (TypeError, ValueError):
+                tags.append("check-refused")
+                continue
+            tags.append("check-ok")
+            if a != b:
+                tags.append("check-ok-proper")
+            n_ok += 1
+            vals = G.boundary_values(a, fam, rng)
+            for _ in range(6):
+                try:
+                    vals.append(G.gen_json(rng, a, fam, 2))
+                except Exception:
+                    pass
+            for v in [G.OMIT] + vals:
+                try:
+                    inp = {} if v is G.OMIT else {"f": json.loads(json.dumps(v))}
+                    o = Ch.parse_obj(json.loads(json.dumps(inp)))
+                    jd = o.json_dict()
+                except Exception:
+                    continue
+                if C12._has_nan(jd):
+                    continue
+                try:
+                    Ga.parse_obj(json.loads(json.dumps(jd)))
+                except Exception as e:
+                    oracle.append(dict(kind="child-instance-rejected-by-parent", child="Ch", parent="Ga", input=inp, serialised=jd, fields=sorted(_bad_fields(e)),
+                                       error=("%s: %s" % (type(e).__name__, e))[:300], fam=fam, root="Ch", sub=a, base=b))
+                    break
+        finally:
+            F.close()
+    return dict(out=None, oracle=oracle[:8], tags=sorted(set(tags)), n_ok=n_ok)
 
 
 def _bad_fields(e):
@@ -486,6 +553,25 @@ def related_pair(rng, depth):
     return G.rand_type(rng, depth, MODELS), y
 
 
+def literal_boundary_pairs():
+    """Literal types against every plain / constrained atom, complete over the literal value corpus:
+    each single value (values inside and outside the atom, the empty and the blank string among
+    them), each value together with an ordinary member, bare and inside Optional / List."""
+    out = []
+    atoms = [[a] for a in ["bool", "int", "float", "str"] + G.CSTR]
+    vals = list(G.LIT_STR) + list(G.LIT_INT) + [True, False]
+    for t in atoms:
+        for v in vals:
+            out.append((["lit", [v]], t))
+            if isinstance(v, str) and v != "a":
+                out.append((["lit", ["a", v]], t))
+        for v in ("", " ", "a", 0):
+            out.append((["opt", ["lit", [v]]], ["opt", t]))
+            out.append((["list", ["lit", [v]]], ["list", t]))
+            out.append((["lit", [v]], ["union", [t, ["dur"]]] if t != ["bool"] else ["opt", t]))
+    return out
+
+
 def gen_sub_cases(ctx):
     rng = ctx.rng
     fam = base_table()
@@ -508,6 +594,7 @@ def gen_sub_cases(ctx):
     pairs += [(["qhash"], ["hash"]), (["qhash"], ["nes"]), (["hash"], ["nes"]), (["mime"], ["nes"]), (["hash"], ["qhash"]), (["list", ["mime"]], ["list", ["nes"]]),
               (["nes"], ["union", [["qty"], ["nes"]]]), (["nes"], ["union", [["unit"], ["nes"]]]), (["str"], ["opt", ["union", [["qty"], ["str"]]]]),
               (["list", ["mime"]], ["list", ["union", [["unit"], ["dur"], ["nes"]]]])]
+    pairs += literal_boundary_pairs()
     chunk = 100 if ctx.quick else 400
     for i in range(0, len(pairs), chunk):
         cases.append(dict(kind="sub", fam=fam, pairs=[list(p) for p in pairs[i:i + chunk]], seed=rng.randrange(1 << 30)))
@@ -742,7 +829,7 @@ def extra_policy_space():
     return out
 
 
-OVR_SPACE_TYPES = [["int"], ["opt", ["int"]], ["str"], ["opt", ["str"]], ["union", [["int"], ["str"]]], ["lit", ["a"]], ["nes"]]
+OVR_SPACE_TYPES = [["int"], ["opt", ["int"]], ["str"], ["opt", ["str"]], ["union", [["int"], ["str"]]], ["lit", ["a"]], ["lit", ["a", ""]], ["nes"]]
 
 
 def override_chain_space():
@@ -793,6 +880,68 @@ def gen_ovr_cases(ctx):
     return focused_ovr() + pol + chn + [rand_ovr_case(ctx.rng) for _ in range(n)]
 
 
+PLAIN_OF = {"str": "pstr", "int": "pint", "float": "pfloat", "bool": "pbool"}
+
+
+def plainify(rng, ty, p=0.5):
+    """Replace strict primitives by the plain builtins at some leaves."""
+    k = ty[0]
+    if k in PLAIN_OF:
+        return [PLAIN_OF[k]] if rng.random() < p else ty
+    if k in ("opt", "list", "set", "ann"):
+        return [k, plainify(rng, ty[1], p)]
+    if k == "union":
+        alts = []
+        for t in ty[1]:
+            t2 = plainify(rng, t, p)
+            if t2 not in alts:
+                alts.append(t2)
+        return ["union", alts] if len(alts) > 1 else alts[0]
+    return ty
+
+
+def plain_pairs():
+    """Complete over atoms x atoms with at least one plain builtin, and Literal values (each value
+    of the literal corpus alone and next to an ordinary member) against every plain builtin,
+    bare and inside Optional / List."""
+    out = []
+    plains = [[p] for p in G.PLAIN_ATOMS]
+    atoms = [[a] for a in G.ATOMS] + plains
+    for p in plains:
+        for q in atoms:
+            out.append((q, p))
+            if q not in plains:
+                out.append((p, q))
+    vals = list(G.LIT_STR) + list(G.LIT_INT) + [True, False]
+    for p in plains:
+        for v in vals:
+            out.append((["lit", [v]], p))
+            if isinstance(v, str) and v != "a":
+                out.append((["lit", ["a", v]], p))
+            elif not isinstance(v, str) and v != 1:
+                out.append((["lit", [1, v]], p))
+        for v in ("", " ", "a", 0, True):
+            out.append((["opt", ["lit", [v]]], ["opt", p]))
+            out.append((["list", ["lit", [v]]], ["list", p]))
+            out.append((["lit", [v]], ["opt", p]))
+    return out
+
+
+def gen_pln_cases(ctx):
+    rng = ctx.rng
+    pairs = plain_pairs()
+    for _ in range(300 if ctx.quick else 6000):
+        a, b = related_pair(rng, rng.randrange(0, 3))
+        a, b = plainify(rng, a), plainify(rng, b, 0.8)
+        if '"model"' in json.dumps([a, b]):
+            continue
+        pairs.append((a, b))
+    if not ctx.quick:
+        ctx.exhaustive_spaces.append("override families Ga.f:b <- Ch.f:a for all atom pairs with a plain builtin (str/int/float/bool) on either side and all Literal values of the corpus against every plain builtin: %d pairs" % len(plain_pairs()))
+    chunk = 60
+    return [dict(kind="pln", pairs=[list(x) for x in pairs[i:i + chunk]], seed=rng.randrange(1 << 30)) for i in range(0, len(pairs), chunk)]
+
+
 def gen_anc_cases(ctx, names):
     per = 2 if ctx.quick else 10
     return [dict(kind="anc", schema=n, seed=ctx.rng.randrange(1 << 30), n=8 if ctx.quick else 25, depth=2) for n in names for _ in range(per)]
@@ -817,7 +966,7 @@ def run(ctx):
                 "with a witness search for every accepted pair; (acc) single-field validation on a boundary corpus per type; (ovr) chains of 2-4 classes (plugins and plain "
                 "intermediate classes) in which every class below the top may re-annotate the inherited field (declared or not), add required/Optional/defaulted fields or "
                 "constants (also below a forbidding parent) and change the extra policy, nested use, decorators; class construction + check_types vs model, and instances of every "
-                "reachable class parsed by each of its ancestors; (anc) installed schemas parsed by every ancestor. Non-trivial = tagged.")
+                "reachable class parsed by each of its ancestors; (pln, oracle only) override pairs with the plain builtins str/int/float/bool on either side; (anc) installed schemas parsed by every ancestor. Non-trivial = tagged.")
     ctx.assumptions += [
         "date/time types are outside the grammar (excluded by the property)",
         "runtype 0.3.5 `<=` on canonical types, typing's normalisation of Union/Optional/Literal and pydantic 1.10 validation are modelled for the grammar and compared on every case",
@@ -835,6 +984,19 @@ def run(ctx):
     ctx.correspond("accepts", MOD, acc, lines, "drv_cod", compare=compare, timeout=120)
     ovr = [c for c in corpus if c["kind"] == "ovr"] + gen_ovr_cases(ctx)
     ctx.correspond("check_types", MOD, ovr, lines, "drv_cod", compare=compare, timeout=120)
+    pln = [c for c in corpus if c["kind"] == "pln"] + gen_pln_cases(ctx)
+    n_pln = 0
+    for c, r in zip(pln, pool.run(MOD, "impl", pln, timeout=300)):
+        if "timeout" in r:
+            ctx.oracle_hit(c, {"kind": "does-not-terminate", "limit_s": 300}, group="plain-builtins")
+            continue
+        if "crash" in r:
+            raise lean.InfraError("harness crashed on %s: %s\n%s" % (core.canon(c)[:200], r["crash"], r.get("tb", "")))
+        for d in r["ok"]["oracle"]:
+            ctx.oracle_hit(c, d, group="plain-builtins")
+        n_pln += r["ok"]["n_ok"]
+        ctx.note_case(c, r["ok"]["tags"], len(c["pairs"]))
+    ctx.notes.append("plain builtins: %d override pairs, %d let through by check_types and searched for a witness" % (sum(len(c["pairs"]) for c in pln), n_pln))
     names = C12.installed_names()
     anc = [c for c in corpus if c["kind"] == "anc"] + gen_anc_cases(ctx, names)
     res = pool.run(MOD, "impl", anc, timeout=300)
@@ -850,6 +1012,42 @@ def run(ctx):
         n_anc += r["ok"]["nvalid"] * r["ok"]["ancestors"]
         ctx.note_case(c, r["ok"]["tags"], c.get("n", 1))
     ctx.notes.append("installed schemas: %d (instance, ancestor) parses" % n_anc)
+    prioritise_hits(ctx)
+
+
+def prioritise_hits(ctx, budget=30):
+    """`core.finish` looks at one representative of at most six distinct pre-shrink signatures, in
+    the order of `ctx.oracle_hits`. The known pair QualHashsumStr / HashsumStr shows up inside many
+    type pairs whose signature only collapses to the known one after shrinking on the real code
+    (e.g. `union(qhash, lit(a)) < hash`), which would use up the six places. So: hits that do not
+    involve `qhash` first; the others are shrunk here (smallest first, up to `budget` distinct
+    signatures) and whatever does not collapse to the known signature comes next."""
+    first, f12, q, seen = [], [], {}, set()
+    for h in ctx.oracle_hits:
+        pre = signature(h["case"], h["detail"])
+        if pre == F12_SIG:
+            f12.append(h)
+        elif "qhash" not in pre:
+            first.append(h)
+        else:
+            q.setdefault(pre, []).append(h)
+    real, rest = [], []
+    for n, pre in enumerate(sorted(q, key=lambda x: (len(x), x))):
+        hs = q[pre]
+        if n < budget:
+            try:
+                c2, d2 = shrink(ctx, hs[0]["case"], hs[0]["detail"])
+                if signature(c2, d2) == F12_SIG:
+                    f12.append(dict(hs[0], case=c2, detail=d2))
+                    continue
+                real.append(dict(hs[0], case=c2, detail=d2))
+                continue
+            except lean.InfraError:
+                raise
+            except Exception as e:
+                ctx.notes.append("pre-shrink failed: %r" % (e,))
+        rest += hs
+    ctx.oracle_hits[:] = first + real + f12[:1] + rest + f12[1:]
 
 
 # ----------------------------------------------------------------------------- signatures / shrinking
@@ -888,6 +1086,21 @@ def _f12_only(a, b, flag):
     return False
 
 
+def _has_blank_lit(t):
+    return any(x[0] == "lit" and any(isinstance(v, str) and v.strip() == "" for v in x[1]) for x in _subterms(t))
+
+
+def _nested_blank_literal(a, b, detail):
+    """The child type is not itself a Literal (after Annotated), but has a Literal member with an
+    empty / blank string below Optional / Union / List / Set, the parent type has the plain builtin
+    `str` there, and the parent refused the value for its length."""
+    while a[0] == "ann" and b[0] == "ann":
+        a, b = a[1], b[1]
+    if a[0] == "lit":
+        return False
+    return bool(_has_blank_lit(a) and any(x == ["pstr"] for x in _subterms(b)) and "min_length" in str(detail.get("error", "")))
+
+
 def _is_f12(a, b):
     flag = [False]
     try:
@@ -924,6 +1137,11 @@ def signature(case, detail):
                 a, b = ft_c[flds[0]], ft_p[flds[0]]
                 if _is_f12(a, b):
                     return F12_SIG
+                if _nested_blank_literal(a, b, detail):
+                    return NESTED_BLANK_LIT_SIG
+                ser = (detail.get("serialised") or {}).get(flds[0])
+                if a[0] == "lit" and b[0] in G.PLAIN_ATOMS and any(type(v) is type(ser) and v == ser for v in a[1]):
+                    a = ["lit", [ser]]  # the offending member only
                 return "%s:override-unsound:%s<%s" % (ID, G.ty_str(a), G.ty_str(b))
         except Exception:
             pass
@@ -948,6 +1166,16 @@ def shrink(ctx, case, detail):
         if "ok" in r and r["ok"]["oracle"]:
             best = min(r["ok"]["oracle"], key=lambda d: len(json.dumps([d["sub"], d["base"]])))
             return dict(kind="sub", fam=case["fam"], pairs=[[best["sub"], best["base"]]], seed=case.get("seed", 0)), best
+        return dict(case, pairs=[[a, b]]), detail
+    if kind == "child-instance-rejected-by-parent" and case.get("kind") == "pln":
+        # smallest pair of sub-terms that is still let through and has a witness
+        a, b = detail["sub"], detail["base"]
+        cands = sorted(((x, y) for x in _subterms(a) for y in _subterms(b)), key=lambda p: len(json.dumps(p)))
+        c = dict(kind="pln", pairs=[list(p) for p in cands[:200]], seed=case.get("seed", 0))
+        r = pool.run_one(MOD, "impl", c, timeout=600)
+        if "ok" in r and r["ok"]["oracle"]:
+            best = min(r["ok"]["oracle"], key=lambda d: len(json.dumps([d["sub"], d["base"]])))
+            return dict(kind="pln", pairs=[[best["sub"], best["base"]]], seed=case.get("seed", 0)), best
         return dict(case, pairs=[[a, b]]), detail
     if kind == "child-instance-rejected-by-parent":
         r = pool.run_one(MOD, "shrink_ovr", dict(case=case, detail=detail), timeout=600)
@@ -1035,7 +1263,7 @@ def shrink_anc(req):
 def search(ctx):
     for s in range(1, 3):
         sub = core.Ctx(ID, "quick", ctx.seed + 7919 * s)
-        cases = gen_sub_cases(sub) + gen_ovr_cases(sub)
+        cases = gen_sub_cases(sub) + gen_ovr_cases(sub) + gen_pln_cases(sub)
         res = pool.run(MOD, "impl", cases, timeout=300)
         ctx.search_log.append("seed %d: %d cases (subtype pairs with witness search, override families), oracle only" % (sub.seed, len(cases)))
         known = {k.get("signature") for k in core.load_findings() if k.get("kind") == "known"}
@@ -1055,7 +1283,7 @@ def replay(ctx, rep):
         return 0
     r = pool.run_one(MOD, "impl", case, timeout=300)
     print("implementation:", core.canon(r)[:4000])
-    if case.get("kind") != "anc":
+    if case.get("kind") not in ("anc", "pln"):
         C12.load_nf(ctx)
         print("model:", lean.run_driver("drv_cod", [lines(case)]))
     return 1 if ("ok" in r and r["ok"]["oracle"]) else 0
